@@ -35,7 +35,7 @@ def read_env(env):
         out.append(dict(context=plain(c), named=named, actions=acts, rewards=[i["rewards"](a) for a in acts], rfun=i["rewards"]))
     return out
 
-def make_env(rng, args, case=None):
+def make_env(rng, args, case=None, via=None):
     """the same environment through the constructor or through Environments.from_supervised (the property's observation point), arguments positional or by keyword"""
     from coba.environments import SupervisedSimulation, Environments
     names = ["source", "label_col", "label_type", "take"] if hasattr(args[0], "read") else ["X", "Y", "label_type"]
@@ -43,7 +43,7 @@ def make_env(rng, args, case=None):
     while args and args[-1] is None and len(args) > (1 if names[0] == "source" else 2): args.pop()
     npos = rng.randrange(1 if names[0] == "source" else 2, len(args) + 1)
     pos, kw = args[:npos], {names[i]: args[i] for i in range(npos, len(args))}
-    via = rng.choice(["constructor", "from_supervised"])
+    via = via or rng.choice(["constructor", "from_supervised"])
     if case is not None: case["via"] = via; case["keywords"] = sorted(kw)
     return SupervisedSimulation(*pos, **kw) if via == "constructor" else Environments.from_supervised(*pos, **kw)[0]
 
@@ -65,10 +65,18 @@ def check_xy(ctx, n_cases):
         n = rng.randrange(1, 9)
         shape = rng.choice(["dense", "sparse", "scalar"])
         X = [[rng.randrange(0, 9) for _ in range(3)] if shape == "dense" else ({k: rng.randrange(1, 9) for k in rng.sample("abc", rng.randrange(1, 4))} if shape == "sparse" else rng.randrange(0, 9)) for _ in range(n)]
-        lk = rng.choice(["int", "str", "list1", "multi", "multi-int", "real"])
+        lk = rng.choice(["int", "str", "list1", "multi", "multi-int", "real", "cat"])
         if lk == "int": Y = [rng.randrange(0, 4) for _ in range(n)]; lt = rng.choice(["c", "c", None, "r"])
         elif lk == "str": Y = [rng.choice(["p", "q", "rr", "10", "11"]) for _ in range(n)]; lt = rng.choice(["c", None])
         elif lk == "list1": Y = [[rng.choice(["p", "q", "rr"])] for _ in range(n)]; lt = "c"
+        elif lk == "cat":      # Categorical labels whose level lists are not one shared object (two files, hand-built data): the same names, possibly in another order
+            from coba.primitives import Categorical
+            LV = ["n", "y", "m"]; Y = []
+            for _ in range(n):
+                lv = list(LV)
+                if rng.random() < 0.5: rng.shuffle(lv)
+                Y.append(Categorical(rng.choice(LV), lv))
+            lt = "c"
         elif lk == "multi": Y = [rng.sample(["10", "11", "p", "q"], rng.randrange(1, 4)) for _ in range(n)]; lt = "m"
         elif lk == "multi-int": Y = [rng.sample([1, 2, 3, 4], rng.randrange(1, 4)) for _ in range(n)]; lt = "m"
         else: Y = [rng.choice([0.5, 1.5, 2, 3.25]) for _ in range(n)]; lt = rng.choice(["r", None])
@@ -76,16 +84,19 @@ def check_xy(ctx, n_cases):
         case = dict(X=X, Y=Y, label_type=lt)
         ctx.count("xy:" + lk + ":" + str(lt), repr(case), n >= 2 and len(set(map(repr, Y))) >= 2)
         try:
-            got = read_env(make_env(rng, (X, Y, lt), case))
+            got = read_env(make_env(rng, (X, Y, lt), case, via="constructor" if lk == "cat" else None))      # (Environments finalises categorical actions to one-hot codes: C10)
         except Exception as e:
             ctx.fail(["xy", "raises", errname(e), eff], "SupervisedSimulation(X,Y,%r) raised %s: %s on %s" % (lt, errname(e), str(e)[:100], case), case); continue
         acts, rew = expect(eff, Y)
+        if lk == "cat": acts = list(Y[0].levels)      # a categorical label offers every declared level, in the order the first example declares them
         probe = [0, 1, 2.5] if eff == "r" else acts
         ok = len(got) == n
         for g, x, y in zip(got, X, Y):
             if not ok: break
             ok = ok and g["context"] == x and g["actions"] == acts
             ok = ok and all(abs(Fr(g["rfun"](a)) - Fr(rew(y, a))) < Fr(1, 10**9) for a in probe)
+            if ok and eff != "r":      # ... and asked with the very action objects the environment offers
+                ok = all(abs(Fr(g["rfun"](oa)) - Fr(rew(y, a))) < Fr(1, 10**9) for oa, a in zip(g["actions"], acts))
         if ok and eff == "m":      # a multi-label action (list, tuple, set, frozenset of labels) earns the Jaccard overlap with the example's labels
             for g, y in zip(got, Y):
                 for mk in (list, tuple, set, frozenset):
@@ -102,7 +113,8 @@ def check_xy(ctx, n_cases):
             ctx.fail(["xy", "wrong", eff, lk], "SupervisedSimulation(X,Y,%r) -> %s; expected actions %s and rewards by definition, on %s" % (lt, [(g["context"], g["actions"], g["rewards"]) for g in got][:4], acts, case), case); continue
         ctx.sample(dict(case=case, actions=acts, rewards=[g["rewards"] for g in got][:3]), cap=4)
         # model
-        if eff == "c":
+        if lk == "cat": pass      # oracle only: the model's action set is the set of labels that occur, a categorical label offers every declared level
+        elif eff == "c":
             delist = lambda l: l[0] if isinstance(l, list) else l
             rank = {a: i for i, a in enumerate(acts)}
             reqs.append((14, [0, [rank[delist(y)] for y in Y], []])); metas.append((case, [rank[a] for a in acts], [[Fr(v) for v in g["rewards"]] for g in got]))
@@ -130,6 +142,8 @@ def check_sources(ctx, n_cases):
         if fmt in ("csv", "arff"):
             ncol = rng.randrange(2, 5); lab = rng.randrange(ncol)
             names = ["f%d" % i for i in range(ncol)]; names[lab] = "lbl"
+            numeric_names = fmt == "csv" and rng.random() < 0.25      # headers that look like numbers (1-based, or counting down): a name is a name
+            if numeric_names: names = [str(i + 1) for i in range(ncol)] if rng.random() < 0.5 else [str(ncol - 1 - i) for i in range(ncol)]
             feats = [[rng.randrange(0, 9) for _ in range(ncol)] for _ in range(n)]
             classes = rng.sample(["x", "y", "z", "w"], rng.randrange(2, 4))
             labels = [rng.choice(classes) for _ in range(n)]
@@ -139,6 +153,7 @@ def check_sources(ctx, n_cases):
                 header = rng.random() < 0.6
                 if not header: by_name = False
                 lines = ([",".join(names)] if header else []) + [",".join(map(str, r)) for r in feats]
+                if numeric_names and not header: numeric_names = False; names = ["f%d" % i for i in range(ncol)]; names[lab] = "lbl"; lines = [",".join(map(str, r)) for r in feats]
                 src = CsvSource(ListSource(lines), has_header=header)
                 exp_ctx = [[str(v) for j, v in enumerate(r) if j != lab] for r in feats]
                 exp_acts = sorted(set(labels)); cat = False
@@ -147,8 +162,8 @@ def check_sources(ctx, n_cases):
                 src = ArffSource(ListSource(lines))
                 exp_ctx = [[float(v) for j, v in enumerate(r) if j != lab] for r in feats]
                 exp_acts = list(classes); cat = True
-            case = dict(format=fmt, lines=lines, label_col="lbl" if by_name else lab, take=take)
-            env = make_env(rng, (src, "lbl" if by_name else lab, "c", take), case)
+            case = dict(format=fmt, lines=lines, label_col=names[lab] if by_name else lab, take=take)
+            env = make_env(rng, (src, names[lab] if by_name else lab, "c", take), case)
         else:
             multi = fmt == "manik" or rng.random() < 0.3
             labels = [rng.sample(["1", "2", "3"], rng.randrange(1, 3 if multi else 2)) for _ in range(n)]
